@@ -75,6 +75,13 @@ def build(tier):
         cases = [c for c in cases if len(c["lines"]) == 1 or any(TOKENS[t - 1][0] in ("empty", "close", "exporttype") for t in c["lines"])]
         core = ("container", "named_field", "variant_field", "flattened_enum_field", "container_serde")
         cases = [c for k, c in enumerate(cases) if len(c["lines"]) == 1 or (k % 3 == 0 and c["pos"] in core)]
+    else:
+        # every text of one or two lines at every position; three-line texts where they matter for the textual merge
+        # (an empty line, a comment terminator or the words `export type` in them) at the core positions
+        core = ("container", "named_field", "variant_field", "flattened_enum_field", "container_serde", "container_enum")
+        special = ("empty", "close", "exporttype", "paren_open", "paren_close")
+        cases = [c for c in cases if len(c["lines"]) <= 2 or
+                 (c["pos"] in core and sum(1 for t in c["lines"] if TOKENS[t - 1][0] in special) >= 2)]
     units, n = [], 0
     for pos, (tmpl, key) in POSITIONS.items():
         units.append(corpus.Unit("Base_%s" % pos, "#[derive(TS)] " + tmpl.replace("$", "").replace("@", "Base_%s" % pos), [], serde=False, meta={"base": pos}))
@@ -187,12 +194,23 @@ def run(tier):
     finally:
         shutil.rmtree(sandbox, ignore_errors=True)
     tp = os.path.join(vlib.TMP, "docs-trace.ndjson")
-    vlib.write_ndjson(tp, recs)
-    a = vlib.run_tlc("Trace_Module", "Trace_Module.cfg", workers=12, env={"VERIF_TRACE": tp}, timeout=3000, tags=("BAD",), metatag="c15a")
-    vlib.tlc_must_succeed(a, "Trace_Module")
-    if a.distinct != len(recs) + 1:
-        raise ToolError("adjudication judged %d of %d texts" % (a.distinct - 1, len(recs)))
-    for b in a.payloads("BAD"):
+    CH = 5000
+    bads, adist, agen = [], 0, 0
+    for off in range(0, len(recs), CH):
+        chunk = recs[off:off + CH]
+        vlib.write_ndjson(tp, chunk)
+        a = vlib.run_tlc("Trace_Module", "Trace_Module.cfg", workers=12, env={"VERIF_TRACE": tp}, timeout=3000, tags=("BAD",), metatag="c15a", xmx="8g")
+        vlib.tlc_must_succeed(a, "Trace_Module")
+        if a.distinct != len(chunk) + 1:
+            raise ToolError("adjudication judged %d of %d texts" % (a.distinct - 1, len(chunk)))
+        adist += a.distinct
+        agen += a.generated
+        bads += [dict(b, rec=b["rec"] + off) for b in a.payloads("BAD")]
+
+    class _A:
+        distinct, generated = adist, agen
+    a = _A
+    for b in bads:
         desc, u, t, base = meta[b["rec"] - 1]
         v.fail(dict(desc, tags=b["tags"], has_comment_close="close" in desc["lines"]), {"source": u.src, "text": t, "undocumented_sibling": base})
     rc = v.finish()
@@ -200,7 +218,7 @@ def run(tier):
     cov = {"states": r.distinct + a.distinct, "transitions": r.generated + a.generated, "traces_validated_against_impl": len(recs),
            "samples": [{"case": m[0], "text": m[2][:300]} for m in meta[:: max(1, len(meta) // 6)][:6]],
            "cases": len(recs), "merged_file_cases": sum(1 for m in meta if m[0]["merged"]),
-           "model_says_not_contained": model_uncontained, "by_position": dict(Counter(m[0]["position"] for m in meta)), "exhaustive": tier != "quick",
+           "model_says_not_contained": model_uncontained, "by_position": dict(Counter(m[0]["position"] for m in meta)), "exhaustive": False,
            "rule": "doc texts of <= %d lines over 15 line tokens x 4 syntaxes (/// lines, #[doc] attributes, one block, block + line) x 17 positions (quick: all single lines, two-line texts containing an empty line / `*/` / `export type`); + 80 merged-file cases (documented type between two neighbours in a shared file)" % (2 if tier == "quick" else 3)}
     vlib.write_evidence(PROP, tier, "model_checking", cov,
                         ["doc comments are given to the derive as #[doc = ..] attributes, which is what rustc turns /// and /** */ into",
